@@ -165,6 +165,27 @@ int main(int argc, char** argv) {
     std::vector<ApiGroup> tgroups = api_groups(ot);
     ctx.parallel(tgroups.size(), [&](uint64_t gi) { run_group(tgroups[gi], ot, [&](ApiCase& c) { four_runs(ctx, c, 2); }); }, "module entry points, N = 65536");
   }
+  // bulk outputs (16 MiB and more): "no alignment beyond 8 bytes" holds whatever the amount of data
+  {
+    struct BI { int op, mt, shape; };
+    std::vector<BI> bi;
+    for (int shape = 0; shape < (args.thorough() ? 3 : 1); ++shape)
+      for (int op = 0; op < NVECOPS; ++op) for (int mt = 0; mt < 2; ++mt) if (!(mt == 1 && VECOPS[op].fft64_only)) bi.push_back({op, mt, shape});
+    ctx.parallel(bi.size(), [&](uint64_t i) {
+      ExecResult r;
+      bulk_vec_cases(bi[i].op, bi[i].mt, bi[i].shape, [&](ApiCase& c) {
+        if (!ctx.want(c.id)) return;
+        ctx.begin_case(c.id);
+        for (int off : {0, 8, 24}) {
+          ExecOpts o; o.prefill = off == 8 ? 2 : 1; for (int k = 0; k < 12; ++k) o.off[k] = k == 0 ? off : (off ? 16 : 0);
+          execute(c, o, r);
+          std::string err = judge_model(c, r);
+          if (!err.empty()) { ctx.violation(c.id, err + sfmt(" (output at %d modulo 64)", off)); break; }
+        }
+        ctx.end_case(true);
+      });
+    }, "bulk outputs (16 MiB and more)");
+  }
   // strides are caller-chosen 64-bit values: limb offsets beyond 32-bit element / byte arithmetic.  The vector's extent is reserved
   // PROT_NONE, only the limbs are accessible: an access computed with a truncated offset faults or lands in a canary
   {
